@@ -196,6 +196,8 @@ def anm_ivs(g, p, how=None):
 def seed_value(s):
     """Integer value of a seed literal (python int, {'__np__': [dtype, value]} or {'__ss__': [entropy, name]})."""
     if isinstance(s, dict):
+        if "__gen__" in s:
+            return s["__gen__"][1]
         return s["__np__"][1] if "__np__" in s else s["__ss__"][0] if "__ss__" in s else s["__arrseed__"][0][0]
     if isinstance(s, list):
         return s[0]
@@ -225,6 +227,13 @@ def seed_object(world, s):
         if name not in objs:
             objs[name] = np.array(vals, dtype=np.int64)
         return objs[name]
+    if isinstance(s, dict) and "__gen__" in s:
+        # a numpy Generator / BitGenerator in a given state, made afresh for every call: "the same seed" for every API
+        # that hands its random_state to numpy.random.default_rng
+        kind, v = s["__gen__"]
+        world.probes["seed.given_as_" + kind] += 1
+        bg = np.random.PCG64(int(v))
+        return np.random.Generator(bg) if kind == "Generator" else bg
     if isinstance(s, dict) and "__ss__" in s:
         objs = world.__dict__.setdefault("seed_objects", {})
         ent, name = s["__ss__"]
@@ -266,4 +275,29 @@ def seed_class(s):
     if v is None:
         return "none"
     c = "0" if v == 0 else "small" if v < 1000 else "32bit" if v < 2 ** 32 else "big"
-    return c + ("/np" if seed_is_numpy(s) else "/ss" if seed_is_object(s) else "/list" if isinstance(s, list) else "")
+    return c + ("/gen" if isinstance(s, dict) and "__gen__" in s else "/np" if seed_is_numpy(s) else "/ss" if seed_is_object(s) else "/list" if isinstance(s, list) else "")
+
+
+def bitgen_variation(f, ops):
+    """Some global reseeds of a generated history become `numpy.random.set_bit_generator(MT19937(seed))` (decided by a
+    stream of its own, after generation)."""
+    rate = f.choice([0, 0.15, 0.4])
+    for rec in ops:
+        r = f.random()
+        if rec.get("op") == "np.perturb" and rec.get("kind") == "reseed" and r < rate:
+            rec["kind"] = "bitgen"
+
+
+def generator_seed_variation(f, ops, is_target):
+    """Some integer seeds of a generated history are handed over as a numpy Generator / BitGenerator in the state that
+    integer defines (the same form at every call with that seed; decided by a stream of its own, after generation)."""
+    rate = f.choice([0, 0, 0.2, 0.5])
+    chosen = {}
+    for rec in ops:
+        s = rec.get("seed")
+        if isinstance(s, int) and not isinstance(s, bool) and is_target(rec):
+            if s not in chosen:
+                r, kind = f.random(), f.choice(["Generator", "Generator", "BitGenerator"])
+                chosen[s] = kind if r < rate else None
+            if chosen[s]:
+                rec["seed"] = {"__gen__": [chosen[s], s]}
